@@ -103,7 +103,10 @@ def make_context(sc, rep='f64', condition='clean', masked_array_mask=False,
     X.unit = u.Jy if rep == 'quantity' else None
     X.U = u.Jy if rep == 'quantity' else 1
     err = np.round(np.sqrt(np.abs(np.where(np.isfinite(img), img, 0))) + 2)
-    bkg = np.full((ny, nx), float(sc['pedestal']))
+    # integer-valued, non-constant background map (interpolated values
+    # between pixels are not integers)
+    gy_, gx_ = np.mgrid[0:ny, 0:nx]
+    bkg = np.round(float(sc['pedestal']) + 0.15 * gx_ + 0.07 * gy_)
     X.parents = []
     crep = rep
     if rep in ('int16', 'int32', 'int64', 'uint8', 'uint16', 'bigendian_i4') and \
